@@ -30,7 +30,7 @@ PROPS = {
         ],
     },
     'C20': {
-        'streams': ['memory'],
+        'streams': ['memory', 'connpipe'],
         'shrink': {},
         'assumptions': [
             "PARTIAL: the theorems bound a ledger of buffered bytes defined from the models' intermediate values; the allocator itself (Vec growth policy, BufReader/BufWriter capacities, stack vs heap placement) is outside the model and is measured by a counting global allocator",
